@@ -67,3 +67,98 @@ package common
 //@   assigns  fs
 //@   ensures  [durable-on-success] result == nil ==> fs[filePath] == newBytes
 //@   ensures  [untouched-on-error] result != nil ==> fs[filePath] == old(fs)[filePath]
+
+// ---------------------------------------------------------------------------------------------
+// bit array operations used on peer-supplied arrays by the gossip goroutines (C08)
+
+//@ func MinInt
+//@   props C08
+//@   pure
+//@   ensures result == ite(a < b, a, b)
+//@ func MaxInt
+//@   props C08
+//@   pure
+//@   ensures result == ite(a > b, a, b)
+
+//@ func (*BitArray).copy
+//@   props C08
+//@   requires wfBA(bA)
+//@   assigns  nothing
+//@   ensures  wfBA(result) && fresh(result) && fresh(result.Elems) && result.Bits == bA.Bits
+
+//@ func (*BitArray).Copy
+//@   props C08
+//@   requires wfBAorNil(bA)
+//@   assigns  bA.mtx.*
+//@   ensures  (result == nil) == (bA == nil)
+//@   ensures  result != nil ==> wfBA(result) && fresh(result) && fresh(result.Elems) && result.Bits == bA.Bits
+
+//@ func (*BitArray).copyBits
+//@   props C08
+//@   requires wfBA(bA) && bits > 0
+//@   assigns  nothing
+//@   ensures  wfBA(result) && fresh(result) && fresh(result.Elems) && result.Bits == bits
+
+//@ func (*BitArray).Not
+//@   props C08
+//@   requires wfBAorNil(bA)
+//@   assigns  bA.mtx.*
+//@   ensures  (result == nil) == (bA == nil)
+//@   ensures  result != nil ==> wfBA(result) && fresh(result) && fresh(result.Elems) && result.Bits == bA.Bits
+//@   loop 0 invariant 0 <= i && c != nil && wfBA(c) && c.Bits == bA.Bits && fresh(c) && fresh(c.Elems)
+
+//@ func (*BitArray).and
+//@   props C08
+//@   requires wfBA(bA) && wfBA(o)
+//@   assigns  nothing
+//@   ensures  wfBA(result) && fresh(result) && fresh(result.Elems) && result.Bits == ite(bA.Bits < o.Bits, bA.Bits, o.Bits)
+//@   loop 0 invariant 0 <= i && c != nil && wfBA(c) && c.Bits == ite(bA.Bits < o.Bits, bA.Bits, o.Bits) && fresh(c) && fresh(c.Elems)
+
+//@ func (*BitArray).And
+//@   props C08
+//@   requires wfBAorNil(bA) && wfBA(o)
+//@   assigns  bA.mtx.*
+//@   ensures  result != nil ==> wfBA(result)
+
+//@ func (*BitArray).Or
+//@   props C08
+//@   requires wfBA(bA) && wfBA(o)
+//@   assigns  bA.mtx.*, o.mtx.*
+//@   ensures  wfBA(result) && fresh(result) && result.Bits == ite(bA.Bits > o.Bits, bA.Bits, o.Bits)
+//@   loop 0 invariant 0 <= i && c != nil && wfBA(c) && c.Bits == ite(bA.Bits > o.Bits, bA.Bits, o.Bits) && fresh(c) && fresh(c.Elems)
+
+//@ func (*BitArray).Sub
+//@   props C08
+//@   requires wfBAorNil(bA) && wfBA(o)
+//@   assigns  bA.mtx.*, o.mtx.*
+//@   ensures  (result == nil) == (bA == nil)
+//@   ensures  result != nil ==> wfBA(result) && fresh(result)
+//@   loop 0 invariant 0 <= i && c != nil && wfBA(c) && c.Bits == bA.Bits && fresh(c) && fresh(c.Elems)
+//@   loop 1 invariant 0 <= idx && c != nil && wfBA(c) && c.Bits == bA.Bits && fresh(c) && fresh(c.Elems)
+
+//@ func (*BitArray).IsEmpty
+//@   props C08
+//@   requires wfBAorNil(bA)
+//@   assigns  bA.mtx.*
+//@   loop 0 invariant 0 <= $i
+
+//@ func (*BitArray).IsFull
+//@   props C08
+//@   requires wfBAorNil(bA)
+//@   assigns  bA.mtx.*
+//@   loop 0 invariant 0 <= $i
+
+//@ func (*BitArray).PickRandom
+//@   props C08
+//@   requires wfBAorNil(bA)
+//@   assigns  bA.mtx.*
+//@   ensures  result1 ==> bA != nil && 0 <= result0
+//@   loop 0 invariant 0 <= i && length == len(bA.Elems) && 0 <= randElemStart && randElemStart < length
+//@   loop 1 invariant 0 <= j && 0 <= randBitStart && 0 <= elemIdx && elemIdx < length - 1 && length == len(bA.Elems)
+//@   loop 2 invariant 0 <= j && 0 <= randBitStart && 0 <= elemIdx && elemIdx < length && length == len(bA.Elems) && elemBits > 0
+
+//@ func (*BitArray).Update
+//@   props C08
+//@   requires wfBAorNil(bA) && (bA != nil ==> o != nil)
+//@   assigns  bA.mtx.*, bA.Elems[*]
+//@   ensures  bA != nil ==> wfBA(bA)
